@@ -46,6 +46,21 @@ CHECKS["C03"] = dict(
   text="Both remainder functions (reached from DecodeCashAddress and bech32.Decode, not looked up by name) are recognised as the specified LFSRs: c>>K / (c&M)<<5 split, initial value 1, exactly feedback bits 0..4 each tied to the specified generator constant (unrolled or table-driven form), over every input symbol; acceptance compares the whole remainder with the specified constant over expand(prefix)||payload with the payload whole and the specified prefix expansion; symbol decoding is injective and mixed case rejects. Given these, detection of <=5 (CashAddr) / <=4 (bech32) substitutions is the distance theorem of the specifications, which is trusted mathematics and not re-proved here.",
   note="Trusted: the BCH distance claims and generator constants of the CashAddr and BIP173 specifications. A rewrite into a different algorithm (e.g. byte-at-a-time table) is reported as undecided.",
   ref="§3 C03")
+CHECKS["C04"] = dict(
+  technique="taint-style use analysis of big.Int.Bytes() results (every use must be a structurally recognised 32-byte pad or the len<32 edge idiom), must-pass-through guard facts and the bounds prover for the no-wrap depth increment",
+  text="Narrow by design: the leading-zero bug class cannot occur (every minimal-length big-integer encoding in hdkeychain is left-padded to 32 bytes before it becomes key material or is serialised) and the refusal guards dominate derivation: depth+1 proved not to wrap, hardened-from-public rejects with the constant 2^31, both scalar range tests reject in Child and NewMaster, seed length within 16..64. Equality with BIP32 outputs for every seed and path is NOT decided (value level; constrained by the suite's vectors).",
+  note="Trusted: math/big, hmac, bchec arithmetic; BIP32 constants.",
+  ref="§3 C04")
+CHECKS["C05"] = dict(
+  technique="must-pass-through guard facts + linear entailment, symbolic byte-sequence terms for the checksum comparison and the key windows, per-arm (edge) accept-point analysis",
+  text="Every accepting return of NewKeyFromString knows len(decoded)==82, lies behind a full 4-byte SHA256d comparison over decoded[:len-4]; the accepting path is split by the first key byte: on the private arm both scalar range tests reject and the key handed on is decoded[46:78]; on the public arm bchec.ParsePubKey succeeded on decoded[45:78] which is the key handed on. Round-trip equality for every key is not decided (the shape-level ingredient is C04.pad).",
+  note="Trusted: base58.Decode (C07), ParsePubKey, DoubleHashB.",
+  ref="§3 C05")
+CHECKS["C06"] = dict(
+  technique="bounds prover with merge-point case split (length alternatives), phi-of-constants edge facts, symbolic byte-sequence terms per length alternative, writer/reader field agreement, pad-use analysis",
+  text="Every accepting return of DecodeWIF knows 37<=len<=38; the compressed flag is set only where len==38 and decoded[33]==0x01; acceptance lies behind the full 4-byte SHA256d comparison over decoded[:len-4] on each length alternative; the scalar in WIF.String() is padded to 32 bytes; the network byte is one field written from Params.PrivateKeyID / decoded[0], tested by IsForNet against the same Params field and emitted first; SerializePubKey serialises compressed exactly on the flag. Round-trip equality and that the public point belongs to the key are not decided.",
+  note="Trusted: base58 (C07), bchec serialisers, DoubleHashB.",
+  ref="§3 C06")
 
 NA_REASON = {
  "C17": "Every clause with content is a statement about IEEE-754 rounding of f*1e8, a/10^k and shortest-decimal printing over 2.1e15 integers; no fact about the shape of amount.go implies or refutes it, and the two shape-level clauses (NaN/Inf rejected, unit labels) are already pinned by the suite (DESIGN.md §4).",
